@@ -300,6 +300,67 @@ def r6_field_table(ctx):
     ctx.ob(rp.where, "padded field: row i is gathered from consecutive bytes starting at start_i (clamped to the buffer)", ok, "", key="C02-R6|padded-gather")
 
 
+from .c01 import r7_crlf_sniff as _crlf_line_ends
+
+
+def _assign_env(fn):
+    env = {}
+    for s in body_walk(fn):
+        if isinstance(s, ast.Assign) and len(s.targets) == 1 and isinstance(s.targets[0], ast.Name):
+            env.setdefault(s.targets[0].id, []).append(s.value)
+    return env
+
+
+def r7_named_fields(ctx):
+    """key=value sub-fields (VCF INFO): a key is found only by an exact match of the whole key, and the value is what follows `key=`."""
+    ix = ctx.index
+    NT = "bionumpy.io.named_text_buffer"
+    f = ix.func(NT, "NamedBufferExtractor.has_field_name")
+    nm = f.params[1]
+    env = _assign_env(f.node)
+    m0 = env.get("mask", [None])[0]
+    if m0 is None:
+        raise AnchorMissing(f"{f.where}: candidate mask of flag lookup not found")
+    if isinstance(m0, ast.Compare) and len(m0.ops) == 1 and sym.canon(m0.left) == "self._field_lens.ravel()" and sym.canon(m0.comparators[0]) == f"len({nm})":
+        ok = isinstance(m0.ops[0], ast.Eq)
+    else:
+        raise Unrecognised(f"{f.where}: length pre-filter of the flag lookup has an unknown form: {u(m0)}")
+    ctx.ob(f.where, "a flag key matches only sub-fields of exactly the key's length (a longer key that merely starts with it is a different key)", ok, u(m0), key="C02-R7|flag-length")
+    arr = env.get("array", [None])[0]
+    ok = arr is not None and sym.same(arr, f"RaggedArray(self._data, RaggedView2(starts[mask], np.full(mask.sum(), len({nm})))).to_numpy_array()") and \
+        sym.same(env.get("starts", [None])[0], "self._field_starts.ravel()")
+    ctx.ob(f.where, "the candidate sub-fields are read at their own starts over the key's length", ok, u(arr) if arr is not None else "", key="C02-R7|flag-window")
+    st = [n for n in body_walk(f.node) if isinstance(n, ast.Assign) and isinstance(n.targets[0], ast.Subscript) and u(n.targets[0]) == "mask[mask]"]
+    ok = len(st) == 1 and sym.same(st[0].value, f"(array == {nm}).all(axis=-1)")
+    ctx.ob(f.where, "a candidate matches when ALL its characters equal the key", ok, u(st[0]) if st else "", key="C02-R7|flag-all")
+    rets = [n.value for n in body_walk(f.node) if isinstance(n, ast.Return)]
+    ctx.ob(f.where, "a record has the flag when any of its sub-fields matched (grouped by the record's own sub-field table)",
+           len(rets) == 1 and sym.same(rets[0], "RaggedArray(mask, self._field_starts.shape).any(axis=1)"), "; ".join(u(r) for r in rets), key="C02-R7|flag-any")
+    g = ix.func(NT, "NamedBufferExtractor.has_field_mask")
+    nm = g.params[1]
+    env = _assign_env(g.node)
+    ok = sym.same(env.get("line_len", [None])[0], f"len({nm}) + 1") and sym.same(env.get("mask", [None])[0], f"(flat_e.reshape(-1, line_len) == {nm} + '=').all(axis=-1)") and \
+        sym.same(env.get("e", [None])[0], "EncodedRaggedArray(self._data, RaggedView2(starts, [line_len] * len(starts)))") and sym.same(env.get("flat_e", [None])[0], "e.ravel()")
+    ctx.ob(g.where, "a valued key matches when the sub-field starts with the whole key followed by '=' (all len(key)+1 characters)", ok, "", key="C02-R7|key-equals")
+    h = ix.func(NT, "NamedBufferExtractor.get_field_by_name")
+    nm = h.params[1]
+    env = _assign_env(h.node)
+    ok = sym.same(env.get("field_starts", [None])[0], f"self._field_starts.ravel()[mask] + len({nm}) + 1") and sym.same(env.get("lens", [None])[0], f"self._field_lens.ravel()[mask] - len({nm}) - 1")
+    ctx.ob(h.where, "the value of a key is the text after `key=` up to the end of its sub-field", ok, "", key="C02-R7|value-extent")
+    stores = {u(n.targets[0]): sym.canon(n.value) for n in body_walk(h.node) if isinstance(n, ast.Assign) and isinstance(n.targets[0], ast.Subscript)}
+    ok = stores.get("starts[present_mask]") == "field_starts" and stores.get("all_lens[present_mask]") == "lens"
+    ctx.ob(h.where, "value extents are stored on the rows that have the key (rows without it keep length 0)", ok, str(stores), key="C02-R7|value-rows")
+    gn = ix.func(NT, "NamedBufferExtractor.get_field_by_number")
+    r = single_return_expr(gn.node)
+    env = local_env(gn.node)
+    ok = r is not None and sym.canon(r, env) == sym.canon(sym.parse_expr(f"self.get_field_by_name(self._names[{gn.params[1]}], keep_sep={gn.params[2]})"))
+    ctx.ob(gn.where, "column k of the typed INFO table is looked up by the k-th declared key", ok, "", key="C02-R7|by-number")
+    hn = ix.func(NT, "NamedBufferExtractor.has_field_number")
+    r = single_return_expr(hn.node)
+    ok = r is not None and sym.canon(r, local_env(hn.node)) == sym.canon(sym.parse_expr(f"self.has_field_name(self._names[{hn.params[1]}])"))
+    ctx.ob(hn.where, "flag k is looked up by the k-th declared key", ok, "", key="C02-R7|flag-by-number")
+
+
 RULES = [
     ("C02-R1", r1_parser_exhaustive),
     ("C02-R2", r2_coordinate_shift),
@@ -307,4 +368,6 @@ RULES = [
     ("C02-R4", r4_cache_keys),
     ("C02-R5", r5_header_separation),
     ("C02-R6", r6_field_table),
+    ("C02-R7", r7_named_fields),
+    ("C02-R8", _crlf_line_ends),
 ]
